@@ -5,6 +5,24 @@ import vlib, hist, oracles
 ORACLES = {'c03': oracles.c03, 'c04': oracles.c04, 'c05': oracles.c05, 'c06': oracles.c06, 'c12': oracles.c12, 'c14': oracles.c14, 'c16': oracles.c16}
 
 
+def overlapping_upgrades():
+    """two upgrade attempts for one session that overlap: the second begins while the first is in the middle of its handshake; each ends
+    in every way (wrong frame before / after the probe, close, cancel, success) and in both orders; afterwards the session must be usable"""
+    out = []
+    fails = {'wrong': lambda c: [('frame', c, ('pk', ('msg', 70 + c, 'none')))], 'close': lambda c: [('wsclose', c)], 'cancel': lambda c: [('cancel', c)],
+             'ok': lambda c: [('frame', c, ('pk', 'upgrade'))]}
+    for a in ('wrong', 'close', 'cancel'):
+        for b in ('wrong', 'close', 'cancel', 'ok'):
+            for probe_b in (True, False):
+                for first in (0, 1):
+                    end = fails[a](0) + fails[b](1) if first == 0 else fails[b](1) + fails[a](0)
+                    out.append([('open', 'polling', 'accept'), ('poll', 0), ('upgrade', 0), ('frame', 0, ('ping', True)), ('upgrade', 0)] +
+                               ([('frame', 1, ('ping', True))] if probe_b else []) + end +
+                               [('send', 0, 1), ('poll', 0), ('send', 0, 2), ('poll', 0), ('frame', 1, ('pk', ('msg', 80, 'none'))), ('send', 0, 3), ('poll', 0)])
+    return out
+
+
+
 def finale(r, want):
     """closing stimuli, chosen from the implementation's own state: let every live polling client read once more, then let time pass"""
     drained = []
